@@ -74,7 +74,7 @@ def rand_filter(r, comps, kind):
         return []
     if kind == "full":
         c = r.choice([c for c in comps if c[1]] or comps)
-        return [list(kv) for kv in c[1]]
+        return [list(kv) for kv in reversed(c[1])]      # keys in another order than the stratifications were applied
     if kind == "partial":
         c = r.choice([c for c in comps if c[1]] or comps)
         if not c[1]: return []
@@ -130,6 +130,19 @@ def task(W, payload):
                         fail(out, "modifying a returned selection in place changed the model's compartment list", "c13", payload, query=op, program=prog["build"])
                 except BaseException as e:
                     fail(out, "query_compartments raised on a repeated query", "c13", payload, query=op, err=str(e)[:200], program=prog["build"])
+                # a predicate that would be true of "no value": a compartment that does not carry the stratification is still not selected
+                if flt:
+                    qn = {k: (lambda y, v=v: y != v) for k, v in flt}
+                    if name is not None: qn = {"name": name, **qn}
+                    bn = [[c.name, [list(kv) for kv in c.strata.items()]] for c in m.compartments
+                          if (name is None or c.name == name) and all(k in c.strata and c.strata[k] != v for k, v in flt)]
+                    try:
+                        gn = [[c.name, [list(kv) for kv in c.strata.items()]] for c in m.query_compartments(qn)]
+                        if gn != bn:
+                            fail(out, "query_compartments with a predicate selects compartments that do not carry the stratification (or misses some that do)", "c13", payload,
+                                 query=str({k: "!= " + v for k, v in flt}), name=name, got=gn, want=bn, program=prog["build"])
+                    except BaseException as e:
+                        fail(out, "query_compartments with a predicate raised", "c13", payload, err=str(e)[:200], program=prog["build"])
                 # collection / predicate valued filters against the same brute force
                 if flt:
                     q2 = {k: [v, "zzz"] for k, v in flt}
